@@ -361,6 +361,14 @@ def judge_D_diff(ctx, case):
         except Exception:  # noqa
             okp = t[:2] != hrp
         ctx.judge("D.differential", okp, {"helper": "bech32_decode_address", "s": t}, ref[1], None, cls="diff|helper", mech="C11.D.helper_decode")
+    if ref is None and hrp in ("bc", "tb") and case.get("tag", "").startswith("outside-33-126"):
+        # the address helper on top of the decoder must not hand out a program for a string the decoder has to refuse
+        try:
+            prog = h.bech32_decode_address(t)
+            okh = not isinstance(prog, (bytes, bytearray, list)) or len(prog) == 0
+        except Exception:  # noqa
+            prog, okh = None, True
+        ctx.judge("D.differential", okh, {"helper": "bech32_decode_address", "s": t}, "refusal", prog, cls="diff|helper-invalid", mech="C11.D.helper_accepts_invalid")
     return r
 
 
@@ -476,6 +484,25 @@ def run(ctx):
             for c in foreign:
                 c2 = c.upper() if gi & 1 else c
                 judge_D_diff(ctx, {"hrp": hrp, "s": form[:pos] + c2 + form[pos + 1:], "tag": "grid-foreign-%s" % ("checksum" if pos >= len(form) - 6 else "data")})
+    # ---- B4: characters outside 33..126 (blank, tab, NL, CR, CR+NL, VT, FF, NUL, DEL, the C0 separators, NEL, NBSP, LS/PS,
+    #          BOM, ZWSP) appended, prepended, put after the separator and in front of the checksum of valid addresses (both
+    #          cases): BIP173 allows none of them anywhere.  (`$` in a regular expression, str.strip(), int() and
+    #          bytes.fromhex() all forgive some of these at the END of a string.)
+    outside = [" ", "\t", "\n", "\r", "\r\n", "\x0b", "\x0c", "\x00", "\x7f", "\x1c", "\x1d", "\x1e", "\x1f", "\x85", "\xa0",
+               "\u2028", "\u2029", "\ufeff", "\u200b", "\n\n", " \n"]
+    for gi in range(8 if not ctx.thorough else 80):
+        n += 1
+        if not ctx.mine(n):
+            continue
+        hrp, v, s_ = gen_valid(rnd)
+        form = s_.upper() if gi & 1 else s_
+        if len(form) > 86:
+            continue
+        sep = form.rfind("1")
+        for c in outside:
+            for where, t in (("append", form + c), ("prepend", c + form), ("after-separator", form[:sep + 1] + c + form[sep + 1:]),
+                             ("before-checksum", form[:-6] + c + form[-6:])):
+                judge_D_diff(ctx, {"hrp": hrp, "s": t, "tag": "outside-33-126-%s" % where})
     # ---- C (shard 0 only: 6 s)
     patterns = []
     if ctx.shard == 0:
